@@ -319,7 +319,13 @@ class IndexVals:
         if isinstance(k, int) and not isinstance(k, bool) and -self.n <= k < self.n:
             return self.labels[k] if self.labels is not None else RowLabel(k % self.n)
         if self.labels is not None and isinstance(k, slice):
-            return list(self.labels[k])
+            r = Vec(list(self.labels[k]))
+            r.exact = True
+            return r
+        if self.labels is not None and isinstance(k, Vec) and len(k.v) == len(self.labels) and all(isinstance(m, bool) for m in k.v):
+            r = Vec([l for l, m in zip(self.labels, k.v) if m])
+            r.exact = True
+            return r
         return Opaque("index[]")
 
     def abs_len(self):
@@ -803,6 +809,8 @@ def value_attr(it, obj, attr):
         if attr == "size":
             return NRows(len(obj.v)) if obj.v else 0
         if attr == "is_monotonic_increasing":
+            if obj.exact and all(num(x) and not isinstance(x, bool) for x in obj.v):
+                return all(a <= b for a, b in zip(obj.v, obj.v[1:]))
             return Opaque("is_monotonic_increasing")
         if attr == "empty":
             return len(obj.v) == 0
@@ -849,7 +857,8 @@ def value_attr(it, obj, attr):
     if isinstance(obj, (str, list, tuple, set, frozenset, FStr, Term, OrderVal, int, float, Fr, slice)) or obj is None:
         if isinstance(obj, slice) and attr in ("start", "stop", "step"):
             return getattr(obj, attr)
-        if isinstance(obj, (str, list, tuple, set, frozenset)) and not isinstance(obj, FStr) and not hasattr(obj, attr) and not hasattr(obj, "abs_getitem"):
+        # (str only: lists / tuples also stand in for arrays and tags in the library model, where a missing attribute is the model's gap)
+        if isinstance(obj, str) and not isinstance(obj, FStr) and not hasattr(obj, attr):
             raise Raised("AttributeError", f"'{type(obj).__name__}' object has no attribute '{attr}'")
         return BoundMethod(obj, attr)
     if isinstance(obj, (Closure,)):
@@ -1127,6 +1136,26 @@ def vec_method(it, obj, name, args, kw):
         if obj.labels is not None and len(obj.labels) == len(obj.v):
             return list(zip(obj.labels, obj.v))
         return list(enumerate(obj.v))
+    if name == "searchsorted" and obj.exact and all(num(x) and not isinstance(x, bool) for x in obj.v):
+        import bisect
+        if any(a > b for a, b in zip(obj.v, obj.v[1:])):
+            raise Undecided("searchsorted on a literal column that is not sorted (numpy's result is then unspecified)")
+        side = args[1] if len(args) > 1 else kw.get("side", "left")
+        f = bisect.bisect_left if side == "left" else bisect.bisect_right
+        q = args[0]
+        if isinstance(q, Vec):
+            if not all(num(x) and not isinstance(x, bool) for x in q.v):
+                raise Undecided("searchsorted with abstract query values")
+            r = Vec([f(obj.v, x) for x in q.v])
+            r.exact = True
+            return r
+        if isinstance(q, (list, tuple)) and all(num(x) and not isinstance(x, bool) for x in q):
+            r = Vec([f(obj.v, x) for x in q])
+            r.exact = True
+            return r
+        if num(q) and not isinstance(q, bool):
+            return f(obj.v, q)
+        raise Undecided(f"searchsorted query {q!r}")
     if name in ("cumsum", "cummax", "cummin") and obj.exact and all(num(x) and not isinstance(x, bool) for x in obj.v):
         # a literal column of plain numbers: the running aggregate is computed
         out, acc = [], None
@@ -1420,7 +1449,7 @@ def ext_call(it, dotted, args, kw):
         return lift2(lambda a, b: a if is_nan(a) else (b if is_nan(b) else f_min(a, b)), args[0], args[1])
     if name == "np.clip":
         return vec_method(it, args[0], "clip", list(args[1:]), kw) if isinstance(args[0], Vec) else f_min(f_max(args[0], args[1]), args[2])
-    if name == "pd.Index" and len(args) == 1 and not kw:
+    if name == "pd.Index" and len(args) == 1 and set(kw) <= {"dtype"}:
         items = list(it.iterate(args[0]))
         labels = []
         for x in items:
